@@ -235,7 +235,7 @@ func runShard(p *propCfg, bin, work string, tier string, seed int64, shard int, 
 	cmd.Dir = work
 	env := baseEnv()
 	env = append(env,
-		"VERIF_OUT="+out, "VERIF_FAIL="+fail, "VERIF_JOURNAL="+journal,
+		"VERIF_OUT="+out, "VERIF_FAIL="+fail, "VERIF_JOURNAL="+journal, "VERIF_STUCK="+filepath.Join(work, fmt.Sprintf("stuck_%d.json", shard)),
 		"VERIF_TIER="+tier, "VERIF_SEED="+strconv.FormatInt(seed, 10), "VERIF_SHARD="+strconv.Itoa(shard),
 		"VERIF_KNOWN_OPEN="+strings.Join(openKeys, ","),
 		"VERIF_HOOKS="+map[bool]string{true: "1", false: "0"}[hooks],
@@ -584,6 +584,14 @@ func run(p *propCfg, work, tier string, seed int64) int {
 			} else if r.partial.Cases < int64(tc.Checks) {
 				inconcl = fmt.Sprintf("shard-%d-ran-%d-of-%d-cases", r.shard, r.partial.Cases, tc.Checks)
 			}
+		case r.exit == 3 && !fileNonEmpty(r.failFile):
+			// the watchdog inside the test process: one case did not finish (generator, model or
+			// library — unknown). The case is kept for diagnosis; the run decides nothing.
+			stuck := filepath.Join(filepath.Dir(r.failFile), fmt.Sprintf("stuck_%d.json", r.shard))
+			dst := filepath.Join(verifDir, "replays", fmt.Sprintf("%s-%s-seed%d-shard%d-stuck.json", p.ID, tier, seed, r.shard))
+			_ = copyFile(stuck, dst)
+			inconcl = fmt.Sprintf("shard-%d-case-stuck (kept as %s)", r.shard, dst)
+			fmt.Fprintf(os.Stderr, "shard %d: a case did not finish; log tail:\n%s\n", r.shard, tail(r.log, 10))
 		case r.timedOut && !fileNonEmpty(r.failFile):
 			inconcl = fmt.Sprintf("shard-%d-timeout", r.shard)
 			fmt.Fprintf(os.Stderr, "shard %d timed out; log tail:\n%s\n", r.shard, tail(r.log, 30))
